@@ -196,11 +196,18 @@ def w_model(case):
                         and tol.allclose(res[2], e_dtop, 1e-8, 1e-9)):
                 # does the result equal the flat-layout result at the transposed
                 # matrix (the column-wise misreading)?
-                w = expected_separate(spec, mat.T.flatten(), obs, c, cov)
-                if tol.close(res[0], w[0]) and \
-                        tol.allclose(res[1], w[1], 1e-8, 1e-9) and \
-                        tol.allclose(res[2], w[2], 1e-8, 1e-9):
-                    misread = 'matrix_layout_misread'
+                w_top = mat.T.flatten()
+                if np.any(w_top[d:] < 0):
+                    # the column-wise reading sees a negative scale: chi answers
+                    # -inf with unspecified sensitivities
+                    if res[0] == -np.inf:
+                        misread = 'matrix_layout_misread'
+                else:
+                    w = expected_separate(spec, w_top, obs, c, cov)
+                    if tol.close(res[0], w[0]) and \
+                            tol.allclose(res[1], w[1], 1e-8, 1e-9) and \
+                            tol.allclose(res[2], w[2], 1e-8, 1e-9):
+                        misread = 'matrix_layout_misread'
             if len(res) != 3:
                 viol.append({'sub': 'sep_form', 'message': 'separate form does not '
                              'return (score, dpsi, dtheta)', 'expected': 3,
@@ -331,9 +338,15 @@ def w_model(case):
                     '(%s, %s)' % (lab, name), e_psi, got_psi) is False:
                 viol[-1]['behaviour'] = 'psi_layout_' + name
                 if name == 'matrix' and nc_elem and d == 2:
-                    w = np.real(rp.psi_of(spec, mat.T.flatten(), obs, cov))
-                    if tol.allclose(got_psi, w):
-                        viol[-1]['behaviour'] = 'matrix_layout_misread'
+                    w_top = mat.T.flatten()
+                    if np.any(w_top[d:] < 0):
+                        # negative scale under the column-wise reading: all-NaN
+                        if np.all(np.isnan(np.asarray(got_psi, dtype=float))):
+                            viol[-1]['behaviour'] = 'matrix_layout_misread'
+                    else:
+                        w = np.real(rp.psi_of(spec, w_top, obs, cov))
+                        if tol.allclose(got_psi, w):
+                            viol[-1]['behaviour'] = 'matrix_layout_misread'
             if name == 'flat':
                 outcome += [got_psi]
     return {'transitions': ntr, 'outcome': tol.rnd(outcome), 'violations': viol}
